@@ -96,6 +96,11 @@ Regions(fam) ==
          \cup
          { [add |-> << <<-4,-4,-1,-1>>, <<x, y, x + 3, y + 3>> >>, sub |-> << <<-3,-3,-2,-2>>, <<x + 1, y + 1, x + 2, y + 2>> >>] :
              x \in {-1, 0}, y \in {-4, -1, 0} }
+         \cup  \* an L whose hole touches the outline in the reflex vertex (0,0), in four orientations
+         { [add |-> << <<-3,-3,3,0>>, <<-3,-3,0,3>> >>, sub |-> << <<-2,-2,0,0>> >>],
+           [add |-> << <<-3,0,3,3>>, <<-3,-3,0,3>> >>, sub |-> << <<-2,0,0,2>> >>],
+           [add |-> << <<-3,0,3,3>>, <<0,-3,3,3>> >>, sub |-> << <<0,0,2,2>> >>],
+           [add |-> << <<-3,-3,3,0>>, <<0,-3,3,3>> >>, sub |-> << <<0,-2,1,0>> >>] }
     [] OTHER -> {}
 RegionFams == {"r1", "r2", "rh", "r3", "r3all", "r2big"}
 
